@@ -154,6 +154,11 @@ impl Engine {
         self.runtime.cache().verif_uncache(pid)
     }
 
+    /// drop a process from the LRU only, the way a full cache does (an instance in use stays alive)
+    pub fn verif_lru_drop(&self, pid: &str) {
+        self.runtime.cache().verif_lru_drop(pid)
+    }
+
     /// dump of the cached (live) processes without triggering a load from the store
     pub fn verif_live(&self) -> serde_json::Value {
         let mut procs = Vec::new();
